@@ -13,13 +13,19 @@ LEVEL = "proof"
 EXTRA_TARGETS = ["MG.DriverEng"]
 THEOREMS = {
     "MG.Proofs.C05": [
+        "MG.C05.setitem_vjp_adjoint",
         "MG.C05.unview_vjp_adjoint",
         "MG.C05.applyMask_vjp_adjoint",
-        "MG.C05.setitem_vjp_adjoint",
-        "MG.C05.model_setitem_vjp_eq",
+        "MG.C05.model_vjp_setitem0",
+        "MG.C05.model_vjp_setitem1",
+        "MG.C05.model_setitem_fwd_eq",
         "MG.C05.model_unview_vjp_eq",
+        "MG.C05.model_mask_eq",
+        "MG.C05.placeholder_keeps_value",
     ],
-    "MG.Proofs.C01": ["MG.C01.backward_sound"],
+    "MG.Proofs.C01": [
+        "MG.C01.backward_sound",
+    ],
 }
 
 GEN = dict(inplace=True, p_inplace=0.35, p_view=0.25, p_fail=0.0, p_const=0.12, n_stmts=9)
